@@ -235,7 +235,9 @@ theorem predicates_as_modelled :
   decide +kernel
 
 /-- `HandleEventBatch`: capture every event, `Process`, NoChange ⇒ return before any file, reload or status
-call; both other change types rebuild the configuration and fall through to the status update. -/
+call; both other change types rebuild the configuration and fall through to the status update. (Since /repo c94173a the
+NGINX Plus arm of EndpointsOnlyChange uses the API alone only while the remembered reload result is clean; the store model
+has no Plus flag — the harness runs OSS, where both arms are `updateNginxConf` — so this is a re-pin of the text.) -/
 theorem handler_dispatch_as_modelled :
     Generated.Store.handlerBeforeSwitch =
       ["for _, event := range batch { h.parseAndCaptureEvent(ctx, logger, event) }",
@@ -244,7 +246,7 @@ theorem handler_dispatch_as_modelled :
     Generated.Store.handlerBodies.head? =
       some "if !h.cfg.nginxConfiguredOnStartChecker.ready && h.cfg.nginxConfiguredOnStartChecker.firstBatchError == nil { h.cfg.nginxConfiguredOnStartChecker.setAsReady() } ; return" ∧
     Generated.Store.handlerBodies.tail =
-      ["h.version++ ; cfg := dataplane.BuildConfiguration(ctx, gr, h.cfg.serviceResolver, h.version) ; depCtx, getErr := h.getDeploymentContext(ctx) ; if getErr != nil { logger.Error(getErr, \"error getting deployment context for usage reporting\") } ; cfg.DeploymentContext = depCtx ; h.setLatestConfiguration(&cfg) ; if h.cfg.plus { err = h.updateUpstreamServers(cfg) } else { err = h.updateNginxConf(ctx, cfg) }",
+      ["h.version++ ; cfg := dataplane.BuildConfiguration(ctx, gr, h.cfg.serviceResolver, h.version) ; depCtx, getErr := h.getDeploymentContext(ctx) ; if getErr != nil { logger.Error(getErr, \"error getting deployment context for usage reporting\") } ; cfg.DeploymentContext = depCtx ; h.setLatestConfiguration(&cfg) ; if h.cfg.plus && h.latestReloadResult.Error == nil { err = h.updateUpstreamServers(cfg) } else { err = h.updateNginxConf(ctx, cfg) }",
        "h.version++ ; cfg := dataplane.BuildConfiguration(ctx, gr, h.cfg.serviceResolver, h.version) ; depCtx, getErr := h.getDeploymentContext(ctx) ; if getErr != nil { logger.Error(getErr, \"error getting deployment context for usage reporting\") } ; cfg.DeploymentContext = depCtx ; h.setLatestConfiguration(&cfg) ; err = h.updateNginxConf(ctx, cfg)"] ∧
     Generated.Store.handlerAfterSwitch.getLast? = some "h.updateStatuses(ctx, logger, gr)" := by
   decide +kernel
